@@ -159,29 +159,22 @@ void t4_selffind(void) {
     VEND();
 }
 
-/* abbreviable languages: the four-letter abbreviation (with the accents of those
- * letters) and the accent-stripped full word are each found as the word's own
- * index through the real search */
+/* abbreviable languages: the four-letter abbreviation (letters 1..4 with the marks
+ * attached to them) and the accent-stripped full spelling of every word -- both
+ * generated by the driver from the dumped table (auxiliary data) -- are each found
+ * as the word's own index through the real search */
+#ifdef ABBREV
+#define ABBR CAT(ABBR_, LID)
+#define PLAIN CAT(PLAIN_, LID)
 VF_DECL2(t4_abbrevfind, in_t4_table)
 void t4_abbrevfind(void) {
     struct in_t4_table IN = VF_IN(t4_abbrevfind);
     (void)IN;
     const polyseed_lang* L = &REAL;
-    bool strip = (GOLD_FLAGS & 4) != 0;
     for (int j = 0; j < POLYSEED_LANG_SIZE; ++j) {
-        const char* w = L->words[j];
-        char abbr[40], plain[40];
-        unsigned letters_seen = 0, an = 0, pn = 0;
-        for (unsigned i = 0; w[i] != '\0'; ++i) {
-            unsigned char c = (unsigned char)w[i];
-            bool mark = strip && c >= 0x80;
-            if (!mark) letters_seen++;
-            if (letters_seen <= 4) abbr[an++] = w[i];      /* letters 1..4 and the marks attached to them */
-            if (!mark) plain[pn++] = w[i];
-        }
-        abbr[an] = '\0'; plain[pn] = '\0';
-        VASSERT(polyseed_lang_find_word(L, abbr) == j, "T4 the four-letter abbreviation of every word is recognised as that word");
-        VASSERT(polyseed_lang_find_word(L, plain) == j, "T4 the unaccented spelling of every word is recognised as that word");
+        VASSERT(polyseed_lang_find_word(L, ABBR[j]) == j, "T4 the four-letter abbreviation of every word is recognised as that word");
+        VASSERT(polyseed_lang_find_word(L, PLAIN[j]) == j, "T4 the unaccented spelling of every word is recognised as that word");
     }
     VEND();
 }
+#endif
